@@ -195,7 +195,7 @@ def run_driver_sharded(ops_path, out_path, timeout):
 def set_match(impl, model):
     """A model token `k=∈x|y|z` stands for a set of admissible answers (Go map iteration picks
     one): the implementation's token must be `k=<one of them>`. All other tokens must be equal."""
-    if "∈" not in model:
+    if "∈" not in model and "=[" not in model:
         return False
     ta, tb = impl.split(" "), model.split(" ")
     if len(ta) != len(tb):
@@ -203,7 +203,18 @@ def set_match(impl, model):
     for x, y in zip(ta, tb):
         if x == y:
             continue
-        if "=∈" in y:
+        if "=[" in y and y.endswith("]") and ".." in y:
+            k, rng = y.split("=[", 1)
+            lo, hi = rng[:-1].split("..")
+            if not x.startswith(k + "="):
+                return False
+            try:
+                v = int(x[len(k) + 1:])
+            except ValueError:
+                return False
+            if not (int(lo) <= v <= int(hi)):
+                return False
+        elif "=∈" in y:
             k, alts = y.split("=∈", 1)
             if not x.startswith(k + "="):
                 return False
